@@ -7,7 +7,7 @@ import lib
 from props import hdrjs
 
 THEOREM = 'C07_names / C07_width_select / C07_header_matches_rows / C07_headerless (Props/C07.v)'
-NAMES = ['id', 'name', 'x1', 'Val', '_u', "driver's", 'q"r', 'two words']      # incl. names only a["..."] / a['...'] can spell
+NAMES = ['id', 'name', 'x1', 'Val', '_u', "driver's", 'q"r', 'two words', 'Last, First']      # incl. names only a["..."] / a['...'] can spell
 USER_VARS = ['a1c', 'b2b', 'a3_total', 'zz9', 'NRx']
 INIT_PY = '\n'.join('%s = %d' % (v, i + 7) for i, v in enumerate(USER_VARS))
 INIT_JS = ' '.join('var %s = %d;' % (v, i + 7) for i, v in enumerate(USER_VARS))
@@ -97,9 +97,19 @@ def gen_case0(r):
     elif shape < 0.5:
         pre = 'top 1 '
     if 0.5 <= shape < 0.58 and not join:
-        idxs = sorted(set(r.randint(0, na - 1) for _ in range(r.randint(1, 2))))
+        mentions = [r.randint(0, na - 1) for _ in range(r.randint(1, 3))]       # the same column possibly mentioned twice, in any spelling
+        idxs = sorted(set(mentions))
         dcx = r.random() < 0.3
-        q = 'select %s* except %s' % ('distinct count ' if dcx else r.choice(['', 'distinct ', 'top 2 ']), ', '.join('a%d' % (i + 1) for i in idxs))
+
+        def spell(i):
+            nm = hdrA[i] if hdrA else None
+            opts = ['a%d' % (i + 1), 'a[%d]' % (i + 1)]
+            if nm is not None and nm.replace('_', 'a').isalnum():
+                opts.append('a.%s' % nm)
+            if nm is not None and '"' not in nm and '\\' not in nm:
+                opts.append('a["%s"]' % nm)
+            return r.choice(opts)
+        q = 'select %s* except %s' % ('distinct count ' if dcx else r.choice(['', 'distinct ', 'top 2 ']), ', '.join(spell(i) for i in mentions))
         return {'q': q, 'qjs': q, 'A': A, 'B': B, 'hdrA': hdrA, 'hdrB': hdrB, 'hq': '(1 (%s) %d)' % (' '.join(map(str, idxs)), 1 if dcx else 0), 'kind': 'except'}
     if 0.58 <= shape < 0.64:
         q = 'update a1 = a2' + tail
